@@ -318,3 +318,65 @@ theorem drainDrop_exec (w : World) (it : RangeIt) (d : VecSt)
     VecSt.drainClose]
 
 end AnyVec
+
+namespace AnyVec
+open World
+
+/-- storage and length after `swap_remove(i)` has been consumed -/
+def VecSt.swapRemoveAt (v : VecSt) (i : Nat) : VecSt :=
+  { v with cells := if i = v.len - 1 then v.cells else v.cells.set i (v.cells.get (v.len - 1)),
+           len := v.len - 1 }
+
+theorem VecSt.swapRemoveAt_abs (v : VecSt) (i : Nat) (hwf : v.WF) (hi : i < v.len) :
+    (v.swapRemoveAt i).abs = (v.abs.set i (v.cells.get (v.len - 1))).take (v.len - 1) := by
+  have h1 := hwf.len_le
+  simp only [VecSt.swapRemoveAt, VecSt.abs]
+  have := swap_remove_mem v.cells (v.len - 1) i (by omega) (by omega)
+  rw [this, show v.len - 1 + 1 = v.len by omega]
+
+theorem VecSt.swapRemoveAt_wf (v : VecSt) (i : Nat) (hwf : v.WF) (hi : i < v.len) : (v.swapRemoveAt i).WF := by
+  have h1 := hwf.len_le; have h2 := hwf.cells_le
+  constructor
+  · simp only [VecSt.swapRemoveAt]; split
+    · omega
+    · simp; omega
+  · simp only [VecSt.swapRemoveAt]; split
+    · omega
+    · simp; omega
+
+/-- `swap_remove(i)` whose handle is dropped, no injected fault (the element pointer taken at
+construction is still valid: the storage generation has not changed) -/
+theorem swap_remove_drop_exec (cfg : Cfg) (w : World) (v i id : Nat) (d : VecSt)
+    (hv : w.vecs[v]? = some d) (hl : d.live = true) (hwf : d.WF) (hi : i < d.len)
+    (hc : d.cells.get i = .val id) (hf : w.fault = none) :
+    step cfg (.swapRemove v i .drop) w =
+      ({ logDrop d.hasDrop id w with vecs := w.vecs.set v (d.swapRemoveAt i) }, .ok []) := by
+  have hlt : v < w.vecs.length := (List.getElem?_eq_some_iff.mp hv).1
+  have hd : w.vecs[v] = d := (List.getElem?_eq_some_iff.mp hv).2
+  have h1 := hwf.len_le; have h2 := hwf.cells_le
+  have hb1 : i < d.cap := by omega
+  have hb2 : d.len - 1 < d.cap := by omega
+  have e1 : d.cells.ensure (i + 1) = d.cells := ensure_of_le _ _ (by omega)
+  by_cases hlast : i = d.len - 1
+  · have hi' : d.len - 1 < d.len := by omega
+    have hc' : d.cells.get (d.len - 1) = .val id := by rw [← hlast]; exact hc
+    simp [step, getVec, hl, hi', hlt, hd, setLen, sinkHandle, hDrop, hSlot, readElem, VecSt.readElem_ok, hb2, hc',
+      World.dropElem_nofault, hf, hConsume, World.upd, VecSt.swapRemoveAt, logDrop, hlast]
+  · simp [step, getVec, hl, hi, hlt, hd, setLen, sinkHandle, hDrop, hSlot, readElem, VecSt.readElem_ok, hb1, hc,
+      World.dropElem_nofault, hf, hConsume, World.upd, VecSt.swapRemoveAt, logDrop, hlast, World.writeCell,
+      VecSt.writeCell_ok, hb2, e1]
+
+/-- `pop()` whose handle is dropped, no injected fault -/
+theorem pop_drop_exec (cfg : Cfg) (w : World) (v id : Nat) (d : VecSt)
+    (hv : w.vecs[v]? = some d) (hl : d.live = true) (hwf : d.WF) (hne : d.len ≠ 0)
+    (hc : d.cells.get (d.len - 1) = .val id) (hf : w.fault = none) :
+    step cfg (.pop v .drop) w =
+      ({ logDrop d.hasDrop id w with vecs := w.vecs.set v { d with len := d.len - 1 } }, .ok []) := by
+  have hlt : v < w.vecs.length := (List.getElem?_eq_some_iff.mp hv).1
+  have hd : w.vecs[v] = d := (List.getElem?_eq_some_iff.mp hv).2
+  have h1 := hwf.len_le; have h2 := hwf.cells_le
+  have hb1 : d.len - 1 < d.cap := by omega
+  simp [step, getVec, hl, hne, hlt, hd, setLen, sinkHandle, hDrop, hSlot, readElem, VecSt.readElem_ok, hb1, hc,
+    World.dropElem_nofault, hf, hConsume, World.upd, logDrop]
+
+end AnyVec
